@@ -233,6 +233,16 @@ def run(ctx, P, a):
                     cov.get("lines_executed"), cov.get("lines_total"), cov.get("ops_sampled"), cov.get("never_executed")))
         except Exception as e:            # coverage is a report, never a verdict
             ctx.extra["anchor_line_coverage"] = {"error": repr(e)[:200]}
+    elif all_cases and hasattr(P, "evaluate") and ("vh" in env or "lha" in env) and not os.environ.get("VERIF_NO_COVERAGE") \
+            and not getattr(P, "NO_COVERAGE", False):
+        try:
+            cov = core.anchor_coverage_custom(ctx, P, env, all_cases, max_cases=120 if ctx.tier == "quick" else 1200)
+            if cov:
+                ctx.extra["anchor_line_coverage"] = cov
+                ctx.say("[coverage] anchored functions: %s/%s lines executed by %s sampled cases; never executed: %s" % (
+                    cov.get("lines_executed"), cov.get("lines_total"), cov.get("ops_sampled"), cov.get("never_executed")))
+        except Exception as e:
+            ctx.extra["anchor_line_coverage"] = {"error": repr(e)[:200]}
 
     new_conc, listed = split_known(P, concrete, known)
 
